@@ -24,7 +24,7 @@ PROPS["C11"] = dict(
           "astype: as<bool|Index|double|string|vector<double>|vector<Index>|Vector3d|VectorXd> on generated literals vs a three-way reference "
           "(accept with value / reject / unclear); non-trivial = literal is not the canonical spelling (bool: neither 'true' nor 'false'). "
           "fz_c11_xml: libFuzzer bytes -> LoadFromXML; accepted documents (comments, CDATA, entities, mixed content, any encoding expat takes) "
-          "must survive print -> load with equal names/order/attributes/trimmed values; non-trivial = some loaded value/attribute has a metacharacter."),
+          "must survive print -> load with equal names/order/attributes/trimmed values; non-trivial = some loaded value/attribute has a metacharacter. float literals include magnitudes beyond single precision (3.5e38..9.9e300, 1e-39..1e-300)."),
     assumptions=COMMON_ASSUME + [
         "descriptions are parsed with VOTCA's expat loader (Property::LoadFromXML) and converted to the harness' own tree; link resolution, merge rules and validation are re-implemented from the property statement",
         "list sections: one resolved element per user element; a list the user does not mention keeps its template elements with their defaults (like any other declared node)",
